@@ -1103,3 +1103,61 @@ def fold_or_idiom(fn):
         return out
     fn.body = block(fn.body)
     return cnt[0]
+
+
+def fold_class_constants(fn, cls, kinds=(bytes,)):
+    """`cls.X` / `self.X` bound in the class body to a literal of one of
+    `kinds`, never stored to by any method of the class family, is written
+    as the literal.  Returns the number of substitutions."""
+    if cls is None or not hasattr(cls, "lookup"):
+        return 0
+    cnt = [0]
+    fam = [k for k in getattr(cls, "mro", []) if hasattr(k, "methods")]
+    try:
+        fam += list(cls.subclasses())
+    except Exception:
+        pass
+    stored = set()
+    for k in fam:
+        for (kind, m) in getattr(k, "methods", {}).values():
+            for n in ast.walk(m):
+                if isinstance(n, ast.Attribute) and isinstance(
+                        n.ctx, (ast.Store, ast.Del)) and isinstance(
+                            n.value, ast.Name) and n.value.id in ("self",
+                                                                  "cls"):
+                    stored.add(n.attr)
+
+    def const_of(name):
+        if name in stored:
+            return None
+        vals = []
+        for k in fam:
+            e = getattr(k, "attrs", {}).get(name)
+            if e is not None:
+                vals.append(e)
+        if len(vals) != 1:
+            return None        # overridden somewhere: not one constant
+        e = vals[0]
+        if isinstance(e, ast.Constant) and type(e.value) in kinds:
+            return e
+        if bytes in kinds and isinstance(e, ast.Call) and isinstance(
+                e.func, ast.Name) and e.func.id == "bytes" and len(
+                    e.args) == 1 and isinstance(
+                        e.args[0], (ast.List, ast.Tuple)) and all(
+                            isinstance(x, ast.Constant) and type(
+                                x.value) is int and 0 <= x.value < 256
+                            for x in e.args[0].elts):
+            return ast.Constant(bytes(x.value for x in e.args[0].elts))
+        return None
+
+    class X(ast.NodeTransformer):
+        def visit_Attribute(self, n):
+            if isinstance(n.ctx, ast.Load) and isinstance(
+                    n.value, ast.Name) and n.value.id in ("self", "cls"):
+                v = const_of(n.attr)
+                if v is not None:
+                    cnt[0] += 1
+                    return ast.copy_location(acopy(v), n)
+            return self.generic_visit(n)
+    X().visit(fn)
+    return cnt[0]
